@@ -234,6 +234,8 @@ def bytes_(**kwargs):
             if size and not bound:
                 return data[pos:(pos + size)], size
             elif size and bound:
+                if len_hint > size:
+                    raise ProphyError("too long")
                 return data[pos:(pos + len_hint)], size
             elif bound:
                 if (len(data) - pos) < len_hint:
